@@ -89,6 +89,46 @@ def text_monitors(out, mod, acc):
         ref_inst.cpp_typename(i) for _, it in S.walk_items(mod.items) if it.k in ('Class', 'Func') and it.template
         for p in it.template for i in (p.insts or ()))))
 
+    # identifiers that the *source* spells as foreign names in a scope where they are no parameter (a near miss such
+    # as `TT` next to a parameter `T`, while another template of the module has a parameter called TT) are legitimate
+    legit = set()
+
+    def note(t, scope):
+        if not (not t.ns and not t.args and t.name in scope):
+            legit.add(t.name)
+        for i, n in enumerate(t.ns):
+            if not (i == 0 and n in scope) and n != 'This':
+                legit.add(n)
+        for a in t.args:
+            note(a, scope)
+
+    def note_ret(r, scope):
+        if r is None:
+            return
+        if r.k == 'Pair':
+            note(r.first, scope)
+            note(r.second, scope)
+        else:
+            note(r, scope)
+    for _, it in S.walk_items(mod.items):
+        if it.k == 'Func':
+            sc = {p.name for p in (it.template or ())}
+            note_ret(it.ret, sc)
+            for a in it.args:
+                note(a.type, sc)
+        elif it.k == 'Class':
+            csc = {p.name for p in (it.template or ())} | {'This'}
+            if it.base is not None:
+                note(it.base, csc)
+            for m in it.members:
+                sc = csc | {p.name for p in (getattr(m, 'template', None) or ())}
+                note_ret(getattr(m, 'ret', None), sc)
+                for a in getattr(m, 'args', ()):
+                    note(a.type, sc)
+                if m.k == 'Prop':
+                    note(m.type, sc)
+    concrete |= legit
+
     def types_of(d):
         ts = []
         if d['kind'] == 'init':
